@@ -382,8 +382,10 @@ pub fn app_variants() -> Vec<AppSpec> {
     }
     vec![
         AppSpec::dense(),
-        AppSpec { points: sparse_points.clone(), exc: exc.clone(), write_exc: [None; 4], dense: false },
-        AppSpec { points: vec![], exc, write_exc: [Some(4), Some(6), Some(0x0B), Some(0x80)], dense: true },
+        AppSpec { points: sparse_points.clone(), exc: exc.clone(), write_exc: [None; 4], dense: false, transform: false },
+        AppSpec { points: vec![], exc, write_exc: [Some(4), Some(6), Some(0x0B), Some(0x80)], dense: true, transform: false },
+        // an application that stores something else than what was written
+        AppSpec { points: vec![], exc: vec![], write_exc: [None; 4], dense: true, transform: true },
     ]
 }
 
